@@ -196,7 +196,7 @@ func (d *Device) NoteOn(ev *input.InputEvent) {
 		return
 	}
 	note := key.Note
-	noteCalculatored := int(note) + int(d.octave*12) + int(d.semitone)
+	noteCalculatored := int(note) + int(d.octave)*12 + int(d.semitone)
 	if noteCalculatored < 0 || noteCalculatored > 127 {
 		return
 	}
@@ -275,7 +275,7 @@ func (d *Device) NoteOff(ev *input.InputEvent) {
 }
 
 func (d *Device) AnalogNoteOn(identifier string, note byte, channelOffset byte, ev *input.InputEvent) { // TODO: multinote, collision handler
-	noteCalculatored := int(note) + int(d.octave*12) + int(d.semitone)
+	noteCalculatored := int(note) + int(d.octave)*12 + int(d.semitone)
 	if noteCalculatored < 0 || noteCalculatored > 127 {
 		return
 	}
